@@ -133,6 +133,12 @@ func c06Kind(x *runCtx, ctx context.Context, r *rand.Rand, k lab.Kind, enc proto
 		{what: "nonce-changed", mutate: func(os *fdo.VerifOwnerSign) bool { os.To0d.Val.NonceTO0Sign[3] ^= 1; return true }},
 		{what: "nonce-changed-consistent", mutate: consistent(func(os *fdo.VerifOwnerSign) bool { os.To0d.Val.NonceTO0Sign[3] ^= 1; return true })},
 		{what: "voucher-unextended-consistent", mutate: consistent(func(os *fdo.VerifOwnerSign) bool { os.To0d.Val.Voucher = *unextended; return true })},
+		{what: "voucher-unextended-signed-by-manufacturer", mutate: func(os *fdo.VerifOwnerSign) bool {
+			// straight from DI: the "owner" of a voucher without entries is the manufacturer
+			os.To0d.Val.Voucher = *unextended
+			fixHashAndSign(os, k, "mfg")
+			return true
+		}},
 		{what: "voucher-truncated-to-earlier-owner", mutate: consistent(func(os *fdo.VerifOwnerSign) bool {
 			os.To0d.Val.Voucher.Entries = os.To0d.Val.Voucher.Entries[:1]
 			return true
@@ -345,7 +351,7 @@ func c06Run(x *runCtx, ctx context.Context, w *lab.World, st *lab.MemState, k la
 func c06MustReject(what string) bool {
 	switch what {
 	case "policy-zero", "policy-error", "replayed-in-later-session", "wait-changed", "nonce-changed", "nonce-changed-consistent",
-		"voucher-unextended-consistent", "to1d-address-changed", "to1d-hash-value", "to1d-hash-alg-unknown",
+		"voucher-unextended-consistent", "voucher-unextended-signed-by-manufacturer", "to1d-address-changed", "to1d-hash-value", "to1d-hash-alg-unknown",
 		"to1d-hash-alg-other", "to1d-payload-null", "to1d-signature-bit", "to1d-signature-short", "to1d-protected-alg-unknown",
 		"signed-by-manufacturer", "signed-by-earlier-owner", "signed-by-stranger", "signed-by-device-key", "truncated":
 		return true
